@@ -218,6 +218,11 @@ def generate(rng, tier):
         d = rng.randrange(1, calendar.monthrange(y, m)[1] + 1)
         yield emit(datetime(y, m, d, rng.randrange(24), rng.randrange(60), rng.randrange(60),
                             rng.randrange(1000000)), rng.choice(offs + [rng.randrange(-86399, 86400)]))
+    # the times as they reach the wire: a message with relative times that the Sender segments while its sending hook takes
+    # 1.2 s per PDU (as a throttled sender waits between segments) - every segment carries the message's times
+    from corr import c08
+    for udh in (False, True):
+        yield c08.session_segments_case(rng, (udh, True, 'none', None, 'slow'))
     # relative
     for dd in range(0, 443):
         for sec in ((0, 86399) if not thorough else (0, 1, 59, 60, 3599, 3600, 86399)):
@@ -261,6 +266,8 @@ def generate(rng, tier):
 
 
 def replay(inp):
+    if inp['op'] == 'session-seg':
+        return Case('# ' + str(inp)[:200], '', None, None, inp)
     if inp['op'] == 'from':
         return from_case(inp['text'])
     if inp['kind'] == 'none':
